@@ -33,8 +33,14 @@ def run(patch, ids):
 def main():
     m = json.load(open(os.path.join(VERIF, 'MANIFEST.json')))
     ids = [c['property_id'] for c in m['checks']]
+    # MX_IDS="C03 C13": re-run only these properties and merge the cells into the stored matrix (after a change to
+    # their rules only); MX_ONLY="C03-11 ...": only these patches (new entries), all properties unless MX_IDS is set
+    only_ids = os.environ.get('MX_IDS', '').split()
+    only_pats = os.environ.get('MX_ONLY', '').split()
+    if only_ids: ids = [i for i in ids if i in only_ids]
     out = {}
     pats = sorted(glob.glob(os.path.join(VERIF, 'selftest/neutral/*.diff')) + glob.glob(os.path.join(VERIF, 'selftest/neutral/*.diff.gz')))
+    if only_pats: pats = [p for p in pats if os.path.basename(p).split('.diff')[0] in only_pats]
     from concurrent.futures import ThreadPoolExecutor
     def one(p):
         name = os.path.basename(p).split('.diff')[0]
@@ -44,5 +50,13 @@ def main():
     with ThreadPoolExecutor(max_workers=int(os.environ.get('MX_JOBS', '5'))) as ex:
         for n, c in ex.map(one, pats):
             out[n] = c
-    json.dump(out, open(os.path.join(VERIF, 'selftest/neutral/matrix.json'), 'w'), indent=1)
+    mp = os.path.join(VERIF, 'selftest/neutral/matrix.json')
+    if only_ids or only_pats:
+        old = json.load(open(mp))
+        for n, c in out.items():
+            if c is None: old[n] = None; continue
+            prev = {k: v for k, v in (old.get(n) or {}).items() if only_ids and k not in only_ids}
+            prev.update(c); old[n] = dict(sorted(prev.items()))
+        out = dict(sorted(old.items()))
+    json.dump(out, open(mp, 'w'), indent=1)
 main()
